@@ -376,6 +376,11 @@ func (h *histogram) RecordValue(value float64) {
 	idx := sort.Search(len(h.buckets), func(i int) bool {
 		return h.buckets[i].valueUpperBound >= value
 	})
+	if idx == len(h.buckets) {
+		// +Inf and NaN compare greater-or-equal to no bound: count them in
+		// the last bucket instead of indexing out of range.
+		idx--
+	}
 	h.samples[idx].counter.Inc(1)
 }
 
